@@ -267,9 +267,9 @@ fn unpaired_strategy() -> impl Strategy<Value = UnpairedProbe> {
 
 pub fn run(run: &mut Run) {
     run.technique = "bounded exhaustive enumeration of every integer degree of freedom in a dense range x 32 levels x 3 kinds, plus proptest random real-valued dof via unpaired comparisons; oracle = own t / normal CDF (quadrature) evaluated at the critical value implied by the returned interval".into();
-    run.rule = "probe states of n values ±1 (exact sums) for every n in 2..=N (quick 3000, thorough 20000) by append, and by `+` composition for sizes up to 2^22 dense around 100 000; 32 levels (incl. 0.001..0.49) x 3 kinds at every size; real-valued dof in (1, 2e5) from Unpaired::ci with generated sizes and scales; z implied by ci_wilson bounds; each (dof, level, kind) is distinct".into();
+    run.rule = "probe states of n values ±1 (exact sums) for every n in 2..=N (quick 6000, thorough 60000) by append, and by `+` composition for sizes up to 2^22 dense around 100 000; 32 levels (incl. 0.001..0.49) x 3 kinds at every size; real-valued dof in (1, 2e5) from Unpaired::ci with generated sizes and scales; z implied by ci_wilson bounds; each (dof, level, kind) is distinct".into();
     crate::meanref::selftest_into(run);
-    let nmax: u64 = run.tier.pick(3000, 20_000);
+    let nmax: u64 = run.tier.pick(6000, 60_000);
     run.par((nmax - 1) as usize, |i, obs| {
         let n = i as u64 + 2;
         crate::engine::case_on(obs, "mean", &Probe { n, merged: false }, probe_case);
@@ -278,7 +278,7 @@ pub fn run(run: &mut Run) {
     run.exhaustive_parts.push(format!("every integer dof 1..={} x 32 levels x 3 kinds", nmax - 1));
     // composed states: sizes dense around the switch and log-spaced up to 2^22
     let mut sizes: Vec<u64> = (99_990..=100_012).collect();
-    let count = run.tier.pick(180usize, 5000);
+    let count = run.tier.pick(400usize, 20_000);
     let mut g = crate::engine::SplitMix(run.seed_for("merged_sizes", 0));
     for _ in 0..count {
         let e = 1.0 + g.unit() * 21.0;
@@ -290,7 +290,7 @@ pub fn run(run: &mut Run) {
         crate::engine::case_on(obs, "mean_merged", &Probe { n: sizes_ref[i], merged: true }, probe_case);
     });
     // real-valued dof through Unpaired
-    let cases = run.tier.pick(6_000u32, 120_000);
+    let cases = run.tier.pick(30_000u32, 1_200_000);
     let seed = run.seed_for("unpaired", 0);
     let shards = 16usize;
     run.par(shards, |sh, obs| {
